@@ -516,6 +516,15 @@ class Executor:
             return 'ok ' + self.fs(self.embs[h].positionsOf().keys())
         if op == 'vr':
             e = self.embs[h]
+            # which pairs of points are within eps is decided by the real distance function and handed to the model
+            # (float arithmetic is not modelled); it is read here, at run time, from the points the complex has now
+            try:
+                P = list(e.complex().simplicesOfOrder(0))
+                close = ['%d.%d' % (a, b) for a in range(len(P)) for b in range(a + 1, len(P))
+                         if e.distance(e.positionOf(P[a]), e.positionOf(P[b])) <= self.vr_eps]
+                self.effective = 'vr %s %s [%s]' % (h, t[2], ','.join(close))
+            except Exception:
+                pass
             self.put(t[2], e.vietorisRipsComplex(self.vr_eps)); return 'ok -'
         if op == 'rnew':
             self.reps[h] = SimplicialComplex(); return 'ok -'
